@@ -1,8 +1,8 @@
 """E2 — block execution, fixpoint engine (path mode + join mode), calls."""
 import heapq
 
-from .absint import (I, Fl, Ag, En, Sq, Pt, Top, Md, UNIT, St, Ctx, Frame, Unsupported, Diverge, PathAbort,
-                     INF, join_states, same_state, gc_state, map_value, iter_ints)
+from .absint import (I, Fl, Ag, En, Sq, Pt, Top, Md, UNIT, BOT, Bot, St, Ctx, Frame, Unsupported, Diverge, PathAbort,
+                     INF, join_states, same_state, gc_state, map_value, iter_ints, rename_bulk)
 from .facts import CheckerError
 from .interp import Interp, is_panic_fn, CMP_NEG
 from .mir import kind_of, show
@@ -66,6 +66,29 @@ class Engine(Interp):
         if t == "agg":
             return f"{e[1]}(..)"
         return t
+
+    def loop_depth(self, body):
+        c = getattr(body, "_loop_depth", None)
+        if c is None:
+            body.dominators()
+            rpo_idx = {b: i for i, b in enumerate(body.rpo)}
+            c = {}
+            for t in body.rpo:
+                for h in body.succ[t]:
+                    if h in rpo_idx and rpo_idx[h] <= rpo_idx[t]:
+                        # natural loop of back edge t -> h
+                        loop = {h}
+                        stack = [t]
+                        while stack:
+                            x = stack.pop()
+                            if x in loop:
+                                continue
+                            loop.add(x)
+                            stack.extend(p for p in body.pred[x] if p in rpo_idx)
+                        for x in loop:
+                            c[x] = c.get(x, 0) + 1
+            body._loop_depth = c
+        return c
 
     def cyclic_blocks(self, body):
         c = getattr(body, "_cyclic", None)
@@ -393,7 +416,10 @@ class Engine(Interp):
             mkey = (inst.id, sig)
             hit = ctx.memo.get(mkey)
             if hit is not None:
-                tmpl, tst = hit
+                tmpl, tst, obls = hit
+                if ctx.quiet == 0:
+                    for o in obls:
+                        o.quiet = False
                 if tmpl is None:
                     return []
                 return [(self.instantiate(st, tmpl, tst), st)]
@@ -403,20 +429,21 @@ class Engine(Interp):
             st.store[(fid, i + 1)] = a
         ctx.stack.append(inst.id)
         ctx.analysed_fns[inst.name] = ctx.analysed_fns.get(inst.name, 0) + 1
+        n_obl0 = len(ctx.obl)
         try:
             big = ctx.path_mode_fns is not None and ctx.path_mode_fns(inst)
             budget = ctx.path_budget if big else self.default_path_steps
             out = self.run_mixed(fr, st, budget)
             if out is None:
                 if mkey:
-                    ctx.memo[mkey] = (None, None)
+                    ctx.memo[mkey] = (None, None, ctx.obl[n_obl0:])
                 return []
             rst = out
             ret = rst.store.get((fid, 0), UNIT)
             for k in [k for k in rst.store if k[0] == fid]:
                 del rst.store[k]
             if mkey:
-                ctx.memo[mkey] = (ret, self.snapshot(rst, ret))
+                ctx.memo[mkey] = (ret, self.snapshot(rst, ret), ctx.obl[n_obl0:])
             return [(ret, rst)]
         finally:
             ctx.stack.pop()
@@ -491,6 +518,15 @@ class Engine(Interp):
                 if s in rpo_idx and rpo_idx[s] <= rpo_idx[b]:
                     loop_heads.add(s)
         thresholds = self.thresholds_of(body)
+        extra = set()
+        for _, s0 in seeds:
+            for (lo_, hi_) in s0.itv.values():
+                for x in (lo_, hi_):
+                    if x not in (INF, -INF) and abs(x) < (1 << 40):
+                        extra.update((x - 1, x, x + 1))
+        if extra:
+            thresholds = sorted(set(thresholds) | extra)
+        depth = self.loop_depth(body)
         in_states = {}
         visits = {}
         work = []
@@ -508,39 +544,133 @@ class Engine(Interp):
             old = in_states.get(sk)
             if old is None or (npred[succ] <= 1 and succ not in loop_heads and not force_join):
                 if old is None:
-                    gc_state(s2)
+                    gc_state(s2, ctx.pins)
                 in_states[sk] = s2
                 changed = True
             else:
                 v = visits.get(sk, 0) + 1
                 visits[sk] = v
                 widen = succ in loop_heads and v > ctx.widen_after
+                tagk = (fr.id, succ)
+                stale = {x: ctx.fresh() for x in s2.itv if type(x) is tuple and len(x) >= 2 and x[0] == "j" and x[1] == tagk}
+                rename_bulk(s2, stale)
                 new = join_states(ctx, old, s2, (fr.id, succ), widen=widen, thresholds=thresholds)
-                gc_state(new)
+                gc_state(new, ctx.pins)
                 changed = not same_state(old, new)
                 if changed:
                     in_states[sk] = new
+                if ctx.log and ctx.log(fr):
+                    self.debug_state(fr, succ, v, widen, new, s2)
             if changed and sk not in queued:
-                heapq.heappush(work, (rpo_idx[succ], len(work) + iters, sk))
+                heapq.heappush(work, ((-depth.get(succ, 0), rpo_idx[succ]), len(work) + iters, sk))
                 queued.add(sk)
 
-        for succ, s2 in seeds:
-            arrive(succ, s2, force_join=True)
-        while work:
-            _, _, sk = heapq.heappop(work)
-            queued.discard(sk)
-            bi = sk[0]
-            iters += 1
-            if iters > 20000:
-                raise Unsupported("fixpoint did not converge")
-            st = in_states[sk].copy()
+        ctx.quiet += 1
+        try:
+            for succ, s2 in seeds:
+                arrive(succ, s2.copy(), force_join=True)
+            while work:
+                _, _, sk = heapq.heappop(work)
+                queued.discard(sk)
+                bi = sk[0]
+                iters += 1
+                if iters > 20000:
+                    raise Unsupported("fixpoint did not converge")
+                st = in_states[sk].copy()
+                try:
+                    outs = self.exec_block(st, fr, bi)
+                except Diverge:
+                    outs = []
+                merged = {}
+                for succ, s2 in outs:
+                    k2 = (succ, s2.part)
+                    if k2 in merged:
+                        merged[k2] = join_states(ctx, merged[k2], s2, (fr.id, bi, "out", succ))
+                    else:
+                        merged[k2] = s2
+                for (succ, _), s2 in merged.items():
+                    arrive(succ, s2)
+        finally:
+            ctx.quiet -= 1
+        # descending passes from the post-fixpoint: every block once, loop heads take their stored
+        # state and are then replaced by the join of what arrived (no widening).  The last pass is
+        # the one whose obligations count.
+        heads = {sk: stt for sk, stt in in_states.items() if sk[0] in loop_heads}
+        npass = 2 if heads else 1
+        final_ret = None
+        for pno in range(npass):
+            last = pno == npass - 1
+            if not last:
+                ctx.quiet += 1
             try:
-                outs = self.exec_block(st, fr, bi)
-            except Diverge:
-                outs = []
-            for succ, s2 in outs:
-                arrive(succ, s2)
-        return ret_state
+                arrivals = {}
+                pq = []
+                done = set()
+                ret_acc = [None]
+
+                def arr(succ, s2, pfx):
+                    if succ == RET:
+                        s2.part = s2.part[:part0]
+                        ret_acc[0] = s2 if ret_acc[0] is None else join_states(ctx, ret_acc[0], s2, ("ret", fr.id))
+                        return
+                    sk = (succ, s2.part)
+                    old = arrivals.get(sk)
+                    if old is None:
+                        arrivals[sk] = s2
+                    else:
+                        tagk = (fr.id, succ)
+                        stale = {x: ctx.fresh() for x in s2.itv if type(x) is tuple and len(x) >= 2 and x[0] == "j" and x[1] == tagk}
+                        rename_bulk(s2, stale)
+                        arrivals[sk] = join_states(ctx, old, s2, (fr.id, succ))
+                    if sk not in done and sk not in [x[2] for x in pq]:
+                        heapq.heappush(pq, (rpo_idx[succ], len(done), sk))
+                for succ, s2 in seeds:
+                    arr(succ, s2.copy(), "seed")
+                guard = 0
+                while pq:
+                    _, _, sk = heapq.heappop(pq)
+                    if sk in done:
+                        continue
+                    done.add(sk)
+                    guard += 1
+                    if guard > 5000:
+                        raise Unsupported("descending pass too long")
+                    bi = sk[0]
+                    if sk in heads:
+                        st = heads[sk].copy()
+                    else:
+                        st = arrivals[sk].copy()
+                    try:
+                        outs = self.exec_block(st, fr, bi)
+                    except Diverge:
+                        outs = []
+                    for succ, s2 in outs:
+                        arr(succ, s2, bi)
+                for sk in list(heads):
+                    if sk in arrivals:
+                        nh = arrivals[sk]
+                        gc_state(nh, ctx.pins)
+                        heads[sk] = nh
+                final_ret = ret_acc[0]
+            finally:
+                if not last:
+                    ctx.quiet -= 1
+        return final_ret
+
+    def debug_state(self, fr, bb, visit, widen, st, incoming):
+        names = fr.body.names
+        out = []
+        for l, nm in sorted(names.items()):
+            for tag, s in (("", st), ("in:", incoming)):
+                v = s.store.get((fr.id, l))
+                if type(v) is I:
+                    fs = {k: c for k, c in s.facts.items() if k[0] == v.vid or k[1] == v.vid}
+                    lens = []
+                    for kk, vv in s.store.items():
+                        if type(vv) is Md and "len" in vv.d and type(vv.d["len"]) is I:
+                            lens.append(s.facts.get((v.vid, vv.d["len"].vid)))
+                    out.append(f"{tag}{nm}={s.itv[v.vid]}{' F' + str(len(fs)) if fs else ''}{' rel' + str(lens) if nm == 'index' else ''}")
+        print(f"  [join bb{bb} visit {visit}{' WIDEN' if widen else ''}] " + " ".join(out))
 
     def thresholds_of(self, body):
         c = getattr(body, "_thresholds", None)
